@@ -554,6 +554,17 @@ func init() {
 			g.emit("builder %d %s", []int{0, 64, 1000}[g.intn(3)], ops)
 		}
 		g.emit("builder 0 s:0:1;s:63:1;s:64:0;s:64:1;s:5:3;s:700:2")
+		// sizes beyond the driver's reach: the clauses are evaluated on the real code (thorough tier and whenever
+		// the package's source changed)
+		g.emit("builderprobe 1,5:100000;-:3000000;2,99:100")
+		g.emit("ofmanyprobe 300 40 %d", g.intn(1000))
+		if g.thorough() {
+			g.emit("builderprobe 3:700000000;0,5:64;-:100000000;7:9")
+			g.emit("builderprobe -:715827800;1:100;2:715827800")
+			g.emit("builderprobe 0:1431655700;5:100")
+			g.emit("ofmanyprobe 30000 40 %d", g.intn(1000))
+			g.emit("ofmanyprobe 2000 600 %d", g.intn(1000))
+		}
 	}
 
 	gens["C15"] = func(g *G) {
@@ -673,7 +684,12 @@ func init() {
 		g.emit("tb 64 65536 F64:4096,o,h64,h4095,g100,c,o")
 		// ... and crossed while more than 1024 words are still live
 		g.emit("tb 0 65536 s134417,s140000,f0:65536,o,h134417,g134417,h140000,h65536,f65536:65600,o,h134417,c,o,h140000")
+		g.emit("tbprobe backfill 300")
+		g.emit("tbprobe farbit 5000")
 		if g.thorough() {
+			g.emit("tbprobe backfill 5000")
+			g.emit("tbprobe backfill 66000")
+			g.emit("tbprobe farbit 300000")
 			// more than 4096 complete words behind word 0, then word 0 is completed: one Set must move Offset
 			// past all of them
 			g.emit("tb 0 65536 F64:262784,o,h64,h262783,f0:63,o,s63,o,h262783,c,o,s262784,o")
